@@ -3,7 +3,7 @@ operands_tuple}, of the numeric-literal closures of asm_parser and of disassembl
 structurally (template bytes + argument list).  The combine grammar itself (which characters tokenise into which
 operands) is outside every solver front end available here and is stated as an assumption."""
 import re, json
-from z3 import (BitVec, BitVecVal, BoolVal, Int, IntVal, Int2BV, BV2Int, And, Or, Not, If, Implies, ULT, ULE, UGT, UGE, Extract, ZeroExt, SignExt, Concat, Select,
+from z3 import (simplify, BitVec, BitVecVal, BoolVal, Int, IntVal, Int2BV, BV2Int, And, Or, Not, If, Implies, ULT, ULE, UGT, UGE, Extract, ZeroExt, SignExt, Concat, Select,
                 Array, BitVecSort, simplify, is_true, is_false, is_bv_value)
 import common, mirsym, spec, obl
 from mirsym import V, Agg, Enum, Slice, Opaque, Ptr, Ref, Str, Closure, Unsupported
@@ -120,14 +120,26 @@ def decode_template(tpl, args):
 
 
 def string_tokens(v):
-    """tokens of a String value built by format!/to_string"""
+    """tokens of a String value built by format!/to_string, in-place appends (push_str, push, +=) and nesting (a String displayed inside another format!)"""
+    if isinstance(v, Str): return [('lit', v.s)] if v.s else []
+    if isinstance(v, Opaque) and v.tag == 'strcat': return [t for p in v.args for t in string_tokens(p)]
+    if isinstance(v, Opaque) and v.tag == 'char':
+        c = v.args[0]; cv = simplify(c.t) if isinstance(c, V) else None
+        if cv is None or not hasattr(cv, 'as_long'): raise Unsupported('symbolic character in a string')
+        return [('lit', chr(cv.as_long()))]
     if isinstance(v, Opaque) and v.tag == 'string' and v.args:
         a = v.args[0]
         if isinstance(a, Str): return [('lit', a.s)]
         if isinstance(a, Opaque) and a.tag == 'fmtargs':
             tpl, lst = a.args
             if tpl is None or lst is None: raise Unsupported('format arguments not captured')
-            return decode_template(tpl.s, lst)
+            out = []
+            for t in decode_template(tpl.s, lst):
+                val = t[3] if t[0] == 'arg' else None
+                if t[0] == 'arg' and t[1] == 'new_display' and (isinstance(val, Str) or (isinstance(val, Opaque) and val.tag in ('string', 'strcat', 'char'))): out += string_tokens(val)     # {} of a string: its text
+                elif t[0] == 'arg' and t[1] == 'new_display' and isinstance(val, V) and val.ty == 'char': out += string_tokens(Opaque('char', (val,)))
+                else: out.append(t)
+            return out
     raise Unsupported(f'string value {v}')
 
 
